@@ -334,6 +334,13 @@ def lsp_position_sweep(doc):
                 params = {"textDocument": {"uri": uri}, "range": {"start": {"line": li, "character": ch}, "end": {"line": li, "character": ch + 1}}, "context": {"diagnostics": []}}
             msgs.append({"jsonrpc": "2.0", "id": n, "method": meth, "params": params})
             ids.append(n)
+    # code actions for ranges that span lines, that end before they start, and that are the whole document
+    last = max(len(lines) - 1, 0)
+    for (a, b) in (((0, 0), (last, 0)), ((last, 0), (0, 0)), ((1, 2), (0, 1)), ((0, 3), (0, 1)), ((0, 0), (4000000000, 0)), ((4000000000, 5), (0, 0))):
+        n += 1
+        msgs.append({"jsonrpc": "2.0", "id": n, "method": "textDocument/codeAction",
+                     "params": {"textDocument": {"uri": uri}, "range": {"start": {"line": a[0], "character": a[1]}, "end": {"line": b[0], "character": b[1]}}, "context": {"diagnostics": []}}})
+        ids.append(n)
     for meth in ("textDocument/documentSymbol", "textDocument/formatting"):
         n += 1
         msgs.append({"jsonrpc": "2.0", "id": n, "method": meth, "params": {"textDocument": {"uri": uri}, "options": {"tabSize": 2, "insertSpaces": True}}})
